@@ -23,7 +23,7 @@ RULE = ("random pipelines of 1-3 writer probes (each followed by a snapshot prob
 ASSUMPTIONS = ["float buckets are compared by value after lossless widening to float64 (only the image dtype is pinned by the statement)",
                "a bucket not written in some step of a multi-step run must show no data (NaN) for that step"]
 REQUIRED_COUNTERS = ["read_out_flag_cases", "inplace_only_pixel_cases", "photon3d_own_coords_cases", "debug_after_earlier_debug_run", "debug_exactness_checks", "runs", "slices_compared", "time_labels_checked", "image_dtype_checks", "layout_pairs",
-                     "debug_pairs", "debug_nodes_compared", "scene_checks", "data_checks", "photon3d_runs"]
+                     "debug_pairs", "debug_nodes_compared", "scene_checks", "data_checks", "data_tree_checks", "photon3d_runs"]
 TIMEOUT = {"quick": 600, "thorough": 3000}
 LEVEL_TEXT = ("Exploration by runtime monitoring: each generated run is executed by the real exposure loop; the returned "
               "DataTree is compared slice by slice (bit-exact, through unsigned 64-bit values above 2**53) with "
@@ -244,7 +244,42 @@ def check_result(rec, tree, hier, events, case, index, tag):
         except Exception as exc:  # noqa: BLE001
             rec.violation(f"C03:{tag}:data-changed", f"cannot read /data: {type(exc).__name__}: {exc}", case, index)
             ok = False
+        # the whole container (groups, attributes, variables) is the one the detector held at the end of the run
+        held_data = last["buckets"].get("data_tree")
+        if held_data is None:
+            rec.count("data_tree_snapshot_missing")
+        else:
+            rec.count("data_tree_checks")
+            diff = tree_diff(held_data, tree["/data"] if "data" in tree.children else None)
+            if diff:
+                rec.violation(f"C03:{tag}:data-container-changed", f"/data is not the processed-data container the detector held: {diff}", case, index)
+                ok = False
     return ok
+
+
+def tree_diff(held, got):
+    """First difference between two data trees: groups, group attributes, variables (values, dims, attributes)."""
+    if got is None:
+        return "no /data group in the result"
+    a = {n.path: n for n in held.subtree}
+    b = {n.path: n for n in got.subtree}
+    ra = {p[len(held.path):].strip("/"): n for p, n in a.items()}
+    rb = {p[len(got.path):].strip("/"): n for p, n in b.items()}
+    if sorted(ra) != sorted(rb):
+        return f"groups differ: only held {sorted(set(ra) - set(rb))[:4]}, only returned {sorted(set(rb) - set(ra))[:4]}"
+    for path in ra:
+        na, nb = ra[path], rb[path]
+        if dict(na.attrs) != dict(nb.attrs):
+            return f"attributes of group '/{path}' differ: held {dict(na.attrs)}, returned {dict(nb.attrs)}"
+        if sorted(na.data_vars) != sorted(nb.data_vars):
+            return f"variables of group '/{path}' differ"
+        for name in na.data_vars:
+            va, vb = na[name], nb[name]
+            # (coordinates are not compared: in the flat layout the groups inherit the y/x labels of the root)
+            if va.dims != vb.dims or va.dtype != vb.dtype or dict(va.attrs) != dict(vb.attrs) \
+                    or not np.array_equal(np.asarray(va.values), np.asarray(vb.values), equal_nan=va.dtype.kind == "f"):
+                return f"variable '{name}' of group '/{path}' differs (dims, type, attributes or values)"
+    return None
 
 
 def same_buckets(ds_a, ds_b):
